@@ -220,6 +220,8 @@ pub fn ext_pool() -> Vec<Ext> {
         Ext::Other(0xfe0d, vec![0, 0]),
         Ext::Other(0x3a3a, vec![0]),
         Ext::Other(0xdada, vec![]),
+        // looks like GREASE (0x?A?A) but is not one of the 16 reserved values
+        Ext::Other(0x0a1a, vec![]),
     ]
 }
 /// supported_versions alphabet: every permutation of every subset (size 1..3) of four known versions and two
@@ -246,7 +248,8 @@ pub fn supvers_small() -> Vec<Option<Vec<u16>>> {
 pub fn families(thorough: bool) -> Vec<Hello> {
     let mut v = vec![];
     // F1: versions x cipher lists
-    let base = [0x1301u16, 0xc02f, 0x002f, 0x009c, 0x0a0a, 0xcaca];
+    // two GREASE values and two look-alikes (low nibbles A, bytes different: NOT GREASE under RFC 8701)
+    let base = [0x1301u16, 0xc02f, 0x0a1a, 0x009c, 0x0a0a, 0xcaca, 0x3a4a];
     let mut cipher_lists: Vec<Vec<u16>> = vec![];
     for sub in subsets(&base, 1, if thorough { 6 } else { 5 }) {
         cipher_lists.extend(perms(&sub));
@@ -303,7 +306,7 @@ pub fn families(thorough: bool) -> Vec<Hello> {
         }
     }
     // F3: signature-algorithm orders with GREASE inside x ALPN lists x SNI presence
-    let sa = [0x0403u16, 0x0804, 0x0401, 0x1a1a];
+    let sa = [0x0403u16, 0x0804, 0x1a0a, 0x1a1a];
     let alpns: Vec<Option<Vec<String>>> = vec![None, Some(vec![s("h2")]), Some(vec![s("http/1.1")]), Some(vec![s("h2"), s("http/1.1")]), Some(vec![s("h3")]), Some(vec![s("hq-29"), s("h2")])];
     for sub in subsets(&sa, 0, 4) {
         for order in perms(&sub) {
